@@ -219,6 +219,8 @@ var (
 	dfPool    = []string{"1.5", "-2.25", "0.1", "100", "3.141592653589793", "1e100", "-1e-7", "0", "123456789.125"}
 	symPool   = []string{"a", "b", "foo", "bar-baz", "*x*", "x1", "list", "quote", "let", "setq", "car", "table", "inst",
 		"defun", "lambda", "a-rather-long-symbol-name", "cond", "progn"}
+	// symbols whose names only read back when written between bars
+	oddSymPool = []string{"hello world", "1e5", "a(b", "x;y", "12", "a'b"}
 	keyPool    = []string{":k", ":a", ":test", ":initial-contents", ":b2"}
 	chrPool    = []string{"a", "A", "z", "0", "-", "é", "λ", "(", ")", "\"", ";", "#", "'", "\\", " ", "\n", "|"}
 	strAlpha   = []rune("abcXY z01-_.;()'\"\\|#\n\tλé")
@@ -260,6 +262,9 @@ func genAtom(t *rapid.T) V {
 	case 7, 8:
 		return V{K: "str", S: genStr(t)}
 	case 9, 10:
+		if rapid.IntRange(0, 5).Draw(t, "oddsym") == 0 {
+			return V{K: "sym", S: pickS(t, "osym", oddSymPool)}
+		}
 		return V{K: "sym", S: pickS(t, "sym", symPool)}
 	case 11:
 		return V{K: "key", S: pickS(t, "key", keyPool)}
